@@ -73,6 +73,10 @@ class TD2(TypedDict, total=False):
     y: List[int]
 class TD0(TypedDict):
     pass
+class NT0(NamedTuple):
+    pass
+CN0 = collections.namedtuple("CN0", [])
+CN2 = collections.namedtuple("CN2", ["u", "v"], defaults=[1])
 NTy = NewType("NTy", int)
 TV = TypeVar("TV")
 TVB = TypeVar("TVB", bound=int)
@@ -166,6 +170,9 @@ LEAVES = [
     T("TD1", _choice(['{"a": 1}', '{"a": 1, "b": "z"}']), immut=False, feat="TypedDict"),
     T("TD2", _choice(['{"x": datetime.date(2020, 1, 1)}']), immut=False, feat="TypedDict"),
     T("TD0", _choice(["{}"]), immut=False, feat="TypedDict"),
+    T("NT0", _choice(["NT0()"]), feat="NamedTuple-empty"),
+    T("CN0", _choice(["CN0()"]), feat="namedtuple-empty"),
+    T("CN2", _choice(["CN2(1)", "CN2('a', None)"]), feat="namedtuple-untyped"),
     T("NTy", _choice(["NTy(3)"]), feat="NewType"),
     T('Literal[1, "a", True, None, b"x", E1.A]', _choice(["1", '"a"', "True", "None", 'b"x"', "E1.A"]), feat="Literal"),
     T("Literal[0]", _choice(["0"]), feat="Literal1"),
@@ -472,7 +479,7 @@ class Fam:
             if manual_slots:
                 opts = []
                 alias = None
-            if t.src.startswith("NT") and r.random() < 0.4 and not manual_slots and not any(o.startswith("serialize=") for o in opts):
+            if t.src.startswith(("NT", "CN")) and r.random() < 0.4 and not manual_slots and not any(o.startswith("serialize=") for o in opts):
                 opts.append("serialize=" + r.choice(['"as_dict"', '"as_list"']))
             extra_meta = ""
             if r.random() < 0.08 and not manual_slots:
@@ -647,7 +654,8 @@ class Fam:
         # container-returning strategies (ser_map/ser_lst) are generated only for classes without field-level
         # overrides: a field-level override is re-applied to the element types of the container (known finding
         # field-override-container), which then never terminates
-        if self.allow_container_strategy:
+        # ... and never for a type that the generator also uses as a mapping key (a dict/list is not hashable: to_dict itself fails)
+        if self.allow_container_strategy and key not in ("int", "float", "bool", "str", "datetime.date", "uuid.UUID"):
             if key not in ("str", "bool"):
                 opts += ['{"serialize": ser_map}']
             if key != "str":
@@ -760,6 +768,17 @@ class Fam:
 PREFIXES = [None, None, None, "#/$defs", "#/defs/", "#/x//", "", "/", "#/components/schemas/", "http://e.x/s#/d", "#", "#/a/b/c///", "x y"]
 
 
+CTX_PREFIXES = [None, None, "#/q", "#/q/", "#/components/responses", "", "x//", "#/$defs"]
+
+
+def gen_context(r: random.Random):
+    """a Context the caller passes to build_json_schema: each field set or left unset"""
+    if r.random() < 0.55:
+        return None
+    return {"dialect": r.choice([None, "DRAFT_2020_12", "OPEN_API_3_1"]), "all_refs": r.choice([None, True, False, True]),
+            "ref_prefix": r.choice(CTX_PREFIXES)}
+
+
 def gen_params(r: random.Random) -> dict:
     return {
         "dialect": r.choice([None, None, "DRAFT_2020_12", "OPEN_API_3_1"]),
@@ -767,14 +786,29 @@ def gen_params(r: random.Random) -> dict:
         "ref_prefix": r.choice(PREFIXES),
         "with_definitions": r.choice([True, True, False]),
         "with_dialect_uri": r.choice([False, False, True]),
+        "context": gen_context(r),
     }
 
 
 def gen_case(r: random.Random) -> dict:
     fam = Fam(r).build()
-    mode = r.choice(["single", "single", "builder"])
+    mode = r.choice(["single", "single", "builder", "shared"])
     roots = fam.roots(1 if mode == "single" else r.randrange(2, 5))
     feats = [fam.features(t) for t in roots]
-    return {"source": fam.source(), "roots": [t.src for t in roots], "mode": mode, "params": gen_params(r),
+    params = gen_params(r)
+    if mode == "builder":
+        params["context"] = None
+    if mode == "shared":
+        # per-call keyword arguments; the prefix argument is absent or one fixed spelling, the dialect argument varies freely
+        fixed_prefix = r.choice([None, None, params["ref_prefix"]])
+        steps = []
+        for _ in roots:
+            sp = gen_params(r)
+            sp.pop("context")
+            sp["ref_prefix"] = fixed_prefix if r.random() < 0.8 else None
+            steps.append(sp)
+        params = {"context": gen_context(r) or {"dialect": None, "all_refs": r.choice([None, True]), "ref_prefix": r.choice(CTX_PREFIXES)},
+                  "steps": steps, "dialect": None, "all_refs": None, "ref_prefix": None, "with_definitions": True, "with_dialect_uri": False}
+    return {"source": fam.source(), "roots": [t.src for t in roots], "mode": mode, "params": params,
             "feats": feats, "kf_feature": fam.kf, "future_annotations": fam.future_annotations, "hist": fam.hist, "nclasses": len(fam.order),
             "root_feats": [t.feat for t in roots]}
